@@ -1,5 +1,5 @@
 """C05 -- value hashing is total, deterministic and collision-free on supported values."""
-from contracts import hashing
+from contracts import hashing, auth_type
 
 ID = "C05"
 LEVEL = "other"
@@ -9,7 +9,7 @@ EXPLANATION = (
     "(TYPE_NOT_SUPPORTED iff an unsupported node is reached first, SEQUENCE_TOO_LONG iff a container exceeds the option); every partial operation "
     "(struct.pack ranges, attribute/str/len/iteration on the right constructor) is a discharged safety obligation; the five comprehensions are "
     "verified against comprehension contracts on the real body. Collision-freedom: injectivity lemmas over the pre-image shapes (see 'lemmas') "
-    "and a bounded pairwise check on real CPython values (see 'bounded')."
+    "and a bounded pairwise check on real CPython values (see 'bounded'). _is_authorized_type is proved to track exactly the documented value types (module variables of those types reach the value hash)."
 )
 TRUSTED = [
     "A-ENGINE: pyvc VC generator + z3/cvc5",
@@ -29,6 +29,8 @@ class _Replay(dict):
             return self[key]
         if key.startswith("dds_hash._dds_hash0#"):
             return "h_hash.twin_mismatch"
+        if key.startswith("_is_authorized_type#"):
+            return "h_evalctx.authorized_types"
         return default
 
 
@@ -36,7 +38,9 @@ REPLAY = _Replay({"dds_hash._dds_hash0#struct_pack_l_range": "h_hash.pack_range"
 
 
 def specs():
-    return [c() for c in hashing.SPECS]
+    # which module variables reach the value hash at all: the table of tracked value types (a supported value whose type
+    # silently dropped out of the table would get one signature for all its values)
+    return [c() for c in hashing.SPECS] + [c() for c in auth_type.SPECS]
 
 
 def lemmas():
